@@ -496,8 +496,9 @@ func (g *gen) scenario(kind string) Scenario {
 }
 
 type fracView struct {
-	info FracInfo
-	docs []DocSpec
+	info  FracInfo
+	docs  []DocSpec
+	split []int // documents per bulk (one doc block each in the active docs file)
 }
 
 // absent ID relative to the borders / contents of fraction f
@@ -833,7 +834,7 @@ func coqFracs(views []fracView) string {
 			}
 			fmt.Fprintf(&sb, "D %d %d %d %d", d.MID, d.RID, d.No, d.Len)
 		}
-		sb.WriteString("]")
+		sb.WriteString("] " + casefile.NatList(v.split) + "%nat")
 	}
 	sb.WriteString("]")
 	return sb.String()
@@ -975,6 +976,7 @@ func runScenario(seed uint64, tier string, idx int, kind string, cs constsResp) 
 			}
 			for _, b := range sc.Fracs[k].Bulks {
 				v.docs = append(v.docs, b...)
+				v.split = append(v.split, len(b))
 			}
 			if int(fi.Docs) != len(v.docs) || fi.Sealed != sc.Fracs[k].Sealed {
 				return scenarioOut{err: fmt.Errorf("harness: fraction %d: %d docs sealed=%v, expected %d sealed=%v",
@@ -1295,6 +1297,10 @@ func main() {
 	if only < 0 {
 		if err := runCalc(w, *seed, *tier, cs); err != nil {
 			fmt.Fprintln(os.Stderr, "hC04: calc:", err)
+			os.Exit(3)
+		}
+		if err := runUnits(w, *seed, *tier, cs); err != nil {
+			fmt.Fprintln(os.Stderr, "hC04: units:", err)
 			os.Exit(3)
 		}
 	}
